@@ -14,6 +14,7 @@ VERUS_UNITS = {
     'decimal-ast': dict(unit='decimal-ast', rlimit=30, multiple_errors=40),
     'i64-tok': dict(unit='i64-tok', rlimit=30), 'f64-tok': dict(unit='f64-tok', rlimit=30), 'number-tok': dict(unit='number-tok', rlimit=30),
     'decimal-tok': dict(unit='decimal-tok', rlimit=30), 'complex-tok': dict(unit='complex-tok', rlimit=30),
+    'i64-glue': dict(unit='i64-glue'), 'f64-glue': dict(unit='f64-glue'), 'number-glue': dict(unit='number-glue'), 'decimal-glue': dict(unit='decimal-glue'), 'complex-glue': dict(unit='complex-glue'),
 }
 
 # name -> dict(mods=[(module file the harness becomes a child of, harness file, module name)], flags, timeout, jobs)
@@ -38,6 +39,13 @@ TOK_ASSUME = [
     'T17: `impl Iterator for Tokenizer` is read as an inherent impl (the body of next is unchanged)',
 ]
 
+GLUES = ['i64-glue', 'f64-glue', 'number-glue', 'decimal-glue', 'complex-glue']
+
+GLUE_ASSUME = [
+    'A-std-ws (T19): expr.split_whitespace().collect::<String>() removes exactly the characters with the Unicode White_Space property and nothing else',
+    'the wrapper units use weakened copies of the contracts of Parser::new, Parser::parse and eval that are proved in the parser / evaluator units',
+]
+
 PARSER_ASSUME = [
     'tokenizer interface: next() yields Eof exactly when the input is exhausted and then for ever (proved: postcondition of Tokenizer::next in the units *-tok); the parser units use it as the contract of an abstract token source',
     'T2: derived Clone/PartialEq of Token, NativeFunction, Node are structural; derived PartialOrd of OperatorCategory follows declaration order (the latter also proved by Kani on the real derive)',
@@ -59,7 +67,7 @@ AST_ASSUME = [
     'A-64bit: usize is 64 bits wide',
     'T1 (error type), T2 (derived Clone of Node is structural), T5, T12, T13, T14 extraction rewrites (DESIGN 4.2)',
 ]
-ALL_V = ['i64-ast', 'decimal-ast', 'complex-ast'] + PARSERS + TOKS
+ALL_V = ['i64-ast', 'decimal-ast', 'complex-ast'] + PARSERS + TOKS + GLUES
 
 PLAN = {
     'C01': dict(verus=ALL_V, kani=['i64-ast', 'f64-ast', 'number-ast', 'number-l4'], level='proof', assumptions=AST_ASSUME + PARSER_ASSUME + ['A-stack, A-alloc: stack exhaustion and allocation failure are not modelled'],
@@ -72,28 +80,37 @@ PLAN = {
                            'eval of decimal / complex']),
     'C11': dict(verus=ALL_V, kani=['f64-ast', 'number-ast'], level='proof', assumptions=AST_ASSUME + PARSER_ASSUME,
                 unclaimed=['aggregates of eval_f64 / eval_number / eval_decimal (L3)']),
-    'C13': dict(verus=PARSERS, level='proof', assumptions=PARSER_ASSUME,
-                unclaimed=['whitespace removal (eval_* glue)', 'alias spellings (tokenizer keyword arms)']),
+    'C13': dict(verus=PARSERS + GLUES, kani=['f64-ast', 'number-ast'], level='proof', assumptions=PARSER_ASSUME + GLUE_ASSUME,
+                unclaimed=['alias spellings as text (tokenizer keyword arms map names to tokens: verified for panic-freedom and progress only); what is proved for aliases is that the alias nodes '
+                           '(Arsinh/Arcosh/Artanh ..) apply the same primitive']),
     'C14': dict(verus=ALL_V, kani=['f64-ast', 'number-ast'], level='proof', assumptions=AST_ASSUME + PARSER_ASSUME,
-                unclaimed=['eval_* glue passing Some(placeholder)', 'leaf evaluation in eval_decimal / eval_complex']),
-    'C05': dict(verus=['f64-parser'], kani=['f64-ast'], level='proof',
+                unclaimed=[]),
+    'C05': dict(verus=['f64-parser', 'f64-glue'], kani=['f64-ast'], level='proof',
                 assumptions=KANI_ASSUME + ['constants pi and e: the parser inserts std::f64::consts::PI / E (T8: their bit patterns are not re-proved)'],
                 unclaimed=['value of / and % on the full operand domain (bounded stand-ins only; full-domain division is tried in the thorough tier)',
                            'numerical behaviour of the platform pow / sqrt (A-libm)']),
-    'C07': dict(verus=['decimal-ast', 'decimal-parser'], level='proof',
+    'C07': dict(verus=['decimal-ast', 'decimal-parser', 'decimal-tok', 'decimal-glue'], level='proof',
                 assumptions=PARSER_ASSUME + ['A-decimal: contract header for rust_decimal::Decimal (contracts/decimal_header.vinc): the plain operators and ln/exp/log10/sin/powd panic exactly when their checked_* twins return None; '
                              'division and remainder by zero are undefined; a handful of literal facts (x % 1, x / 2, x / 3, exp(-1), ln 2 are defined); results are uninterpreted',
                              'T8 (Decimal::ZERO/MAX/MIN/PI/E), T12 (sort idiom), T15 (op= rewritten to op) extraction rewrites'],
                 unclaimed=['that rust_decimal\'s + - * / % are exact / correctly rounded as the property says (A-decimal: not decided here)',
-                           'literal text reaching Decimal::from_str unchanged (tokenizer)']),
-    'C08': dict(verus=['complex-ast', 'complex-parser', 'complex-tok'], kani=['complex-ast'], level='proof',
+                           ]),
+    'C08': dict(verus=['complex-ast', 'complex-parser', 'complex-tok', 'complex-glue'], kani=['complex-ast'], level='proof',
                 assumptions=KANI_ASSUME + PARSER_ASSUME + ['A-numcomplex: contract header for num_complex::Complex<f64> (every operation total, results uninterpreted): '
                              'what is proved for * / ^ pow sqrt root exp exp2 ln lb log abs and the trigonometric / hyperbolic functions is which num_complex operation is applied to which operands in which order'],
                 unclaimed=['the 1e-12 / 1e-9 closeness of num_complex operations to the textbook definitions', '`pi` staying the constant next to `p` + `i` (keyword arms)',
                            'agreement with eval_f64 on real operands']),
-    'C09': dict(verus=['number-tok'], kani=['number-ast', 'number-l4'], level='proof', assumptions=KANI_ASSUME + TOK_ASSUME,
+    'C09': dict(verus=['number-tok', 'number-glue'], kani=['number-ast', 'number-l4'], level='proof', assumptions=KANI_ASSUME + TOK_ASSUME,
                 unclaimed=['value of Integer ^ Integer (Kani 0.68 mis-models this arm: its counterexamples do not replay natively)',
                            'value of the Float quotient / remainder beyond the bounded domain', 'value of ^ with a Float operand (open obligations K:number-ast/step_pow_ff, _fi, _if: CBMC does not finish them)']),
+    'C15': dict(verus=['i64-ast'] + PARSERS, kani=['i64-ast', 'number-ast', 'f64-ast'], tables_agree=True, level='proof',
+                assumptions=AST_ASSUME + KANI_ASSUME + PARSER_ASSUME + [
+                    'agreement is obtained as a corollary, not as one relational theorem: (1) eval_i64 returns Ok(v) only for the exact integer v (Verus, all trees) and eval_number returns Integer(exact) on Integer operands whenever it fits (Kani, per constructor), '
+                    '(2) every Float / mixed arm of eval_number has the numeric value of the IEEE operation that the same arm of eval_f64 applies (Kani, per constructor, bit-exact), '
+                    '(3) all five parsers refine spec parsers generated from tables that are identical on shared entries; the induction over the expression tree that combines (1)-(3) is on paper'],
+                unclaimed=['eval_complex vs eval_f64 and eval_decimal vs eval_f64 within 1e-9 (numerical: no contract here can express it)',
+                           'n! and ^ of eval_number on Integers (factorial is thorough-tier, Integer ^ Integer is an open obligation)',
+                           'min / max of two or more arguments in eval_number (beyond CBMC)']),
     'C17': dict(verus=PARSERS, features_sweep=True, level='proof',
                 assumptions=PARSER_ASSUME + ['cargo feature resolution; the all-features test suite is the baseline, the crate\'s unit tests are not re-run per subset',
                                              'the cfg-dependent text is only the category enum: per subset the derived order is re-proved by Kani and the build/export probe is compiled; '
@@ -120,7 +137,7 @@ PLAN = {
         ],
         unclaimed=[],
     ),
-    'C03': dict(verus=PARSERS + TOKS, level='proof', assumptions=PARSER_ASSUME + TOK_ASSUME,
+    'C03': dict(verus=PARSERS + TOKS + GLUES, level='proof', assumptions=PARSER_ASSUME + TOK_ASSUME,
                 unclaimed=['the keyword table of the tokenizers (a function name is recognised only before `(`, foreign names yield None): keyword arms are verified for panic-freedom and progress only']),
     'C04': dict(verus=PARSERS, kani=['tables'], level='proof', assumptions=PARSER_ASSUME, unclaimed=[]),
     'C12': dict(verus=PARSERS, level='proof', assumptions=PARSER_ASSUME, unclaimed=[]),
@@ -172,9 +189,10 @@ LEVEL_TEXT['C07'] = ('Verus proves for all trees that eval_decimal::ast::eval ap
 LEVEL_TEXT['C19'] = ('Verus proves for every input of every tokenizer that a literal starting with a digit is scanned to the end of the maximal run of digits (and points), that a literal starting with a point is '
                      'scanned to the end of its digit run and prefixed with 0, that exactly this text is handed to str::parse / Decimal::from_str (no f64 round trip for Decimal), that eval_number '
                      'chooses Integer iff the text has no point, that eval_complex makes it imaginary iff an `i` follows directly, and that text the conversion rejects yields Err instead of a panic.')
+LEVEL_TEXT['C15'] = ('The components of the agreement are discharged separately: exactness of eval_i64 (Verus), Integer-exact-or-Float behaviour of eval_number on Integer operands and IEEE values on Float operands (Kani, per constructor), '
+                     'bit-exact IEEE arms of eval_f64 (Kani), refinement of all five parsers to spec parsers generated from tables that are checked to be identical on shared entries.')
 DESIGN_REF = {}
 TECHNIQUE = {'C18': 'contract-style full-domain Kani harness on the unmodified function (bit-precise, no unwinding bound)'}
 NOT_APPLICABLE = {
-    'C15': 'not yet covered: relational Kani obligations between evaluators are not built yet',
     'C16': 'contracts speak about one call: neither installed verifier can quantify over unbounded call histories or thread interleavings (Kani has no threads; Verus would need permission types around code that has no shared state to annotate)',
 }
